@@ -37,6 +37,8 @@ type flowCtx struct {
 	call     func() error
 	verify   func(err error)
 	rootsPre *types.RootCertificates
+	noRetry  bool
+	lied     bool // one of the injected faults made storage claim an existing record is absent
 }
 
 type faultFlow struct {
@@ -174,6 +176,21 @@ var faultFlows = []faultFlow{
 		}
 		fc.verify = fetchVerify(fc, "rewrapped", false)
 	}},
+	{"fetch-wrapper-again", func(fc *flowCtx) {
+		// a second wrapper-flow fetch for a key that is already registered (honest retry after a lost response)
+		fc.srv.RW = newAead(fc.r, "reg")
+		sp := HonestSpec(fc.id)
+		sp.Wrapped = WrapRegInfo(fc.r, fc.srv.RW, fc.id.Nonce, fc.id.Pkix, nil)
+		fc.req, _ = BuildFetch(sp)
+		if _, err := registration.FetchNodeCredentials(fc.srv.Ctx, fc.srv.Storage, fc.req, fc.srv.Opts()...); err != nil {
+			fc.r.HarnessErr("setup first wrapper fetch: %v", err)
+		}
+		fc.call = func() (err error) {
+			fc.resp, err = registration.FetchNodeCredentials(fc.srv.Ctx, fc.srv.Storage, fc.req, fc.srv.Opts()...)
+			return
+		}
+		fc.verify = fetchVerify(fc, "wrapper-again", false)
+	}},
 	{"create-token", func(fc *flowCtx) {
 		var id, tok string
 		fc.call = func() (err error) {
@@ -204,6 +221,43 @@ var faultFlows = []faultFlow{
 	{"rotate-roots-reinit", func(fc *flowCtx) { rootsFlow(fc, true) }},
 	{"rotate-node-key-id", func(fc *flowCtx) { rotateNodeFlow(fc, false) }},
 	{"rotate-node-node-id", func(fc *flowCtx) { rotateNodeFlow(fc, true) }},
+	{"rotate-node-replay", func(fc *flowCtx) {
+		// an accepted rotation payload is replayed: it must stay refused whatever storage operation fails, and the record
+		// it registered the first time must not change
+		newID := NewIdent("new")
+		inner, _ := BuildFetch(HonestSpec(newID))
+		payload, err := nodeenrollment.EncryptMessage(contextBG, inner, fc.a.creds)
+		if err != nil {
+			fc.r.HarnessErr("encrypt: %v", err)
+		}
+		rr := &types.RotateNodeCredentialsRequest{CertificatePublicKeyPkix: fc.a.id.Pkix, EncryptedFetchNodeCredentialsRequest: payload}
+		if _, err := rotation.RotateNodeCredentials(fc.srv.Ctx, fc.srv.Storage, rr, fc.srv.Opts()...); err != nil {
+			fc.r.HarnessErr("setup rotation: %v", err)
+		}
+		before := simstore.Snapshot(contextBG, fc.srv.Inner, (*types.NodeInformation)(nil))
+		var resp *types.RotateNodeCredentialsResponse
+		fc.call = func() (err error) {
+			resp, err = rotation.RotateNodeCredentials(fc.srv.Ctx, fc.srv.Storage, rr, fc.srv.Opts()...)
+			return
+		}
+		fc.verify = func(err error) {
+			after := simstore.Snapshot(contextBG, fc.srv.Inner, (*types.NodeInformation)(nil))
+			if fc.lied {
+				// storage itself claimed that a record is absent: the library cannot know that the key is registered, so a
+				// replay may be processed like a first request; only durability is required then
+				if err == nil && after[newID.KeyId] == nil {
+					fc.v("durable", "success-not-persisted/rotate-node-replay", "rotation reported success but the record is not stored")
+				}
+				return
+			}
+			if !bytes.Equal(before[newID.KeyId], after[newID.KeyId]) || !bytes.Equal(before[fc.a.id.KeyId], after[fc.a.id.KeyId]) {
+				fc.v("others-untouched", "existing-record-changed/rotate-node-replay", "a replayed rotation request changed an existing node record (err=%v)", err)
+			}
+			if err == nil && resp != nil {
+				fc.v("fail-closed", "replay-honored-under-storage-fault", "a replayed rotation payload was honored")
+			}
+		}
+	}},
 	{"generate-server-certs", func(fc *flowCtx) {
 		var resp *types.GenerateServerCertificatesResponse
 		nonce := []byte("0123456789abcdef0123456789abcdef")
@@ -244,6 +298,37 @@ var faultFlows = []faultFlow{
 	{"dial-enroll-server-storage", func(fc *flowCtx) { wireFlow(fc, false, false) }},
 	{"dial-enroll-node-storage", func(fc *flowCtx) { wireFlow(fc, true, false) }},
 	{"dial-token-server-storage", func(fc *flowCtx) { wireFlow(fc, false, true) }},
+	{"node-handle-response-token", func(fc *flowCtx) {
+		fc.target = fc.node
+		_, tok, err := registration.CreateServerLedActivationToken(fc.srv.Ctx, fc.srv.Storage, &types.ServerLedRegistrationRequest{}, fc.srv.Opts()...)
+		if err != nil {
+			fc.r.HarnessErr("setup token: %v", err)
+		}
+		topt := nodeenrollment.WithActivationToken(tok)
+		creds, err := types.NewNodeCredentials(fc.node.Ctx, fc.node.Storage, fc.node.Opts(topt)...)
+		if err != nil {
+			fc.r.HarnessErr("setup new creds: %v", err)
+		}
+		req, _ := creds.CreateFetchNodeCredentialsRequest(contextBG, topt)
+		resp, err := registration.FetchNodeCredentials(fc.srv.Ctx, fc.srv.Storage, req, fc.srv.Opts()...)
+		if err != nil {
+			fc.r.HarnessErr("setup fetch: %v", err)
+		}
+		var out *types.NodeCredentials
+		fc.call = func() (err error) {
+			out, err = creds.HandleFetchNodeCredentialsResponse(fc.node.Ctx, fc.node.Storage, resp, fc.node.Opts(topt)...)
+			return
+		}
+		fc.verify = func(err error) {
+			if err != nil {
+				return
+			}
+			st, lerr := types.LoadNodeCredentials(contextBG, fc.node.Inner, nodeenrollment.CurrentId, fc.node.Opts()...)
+			if lerr != nil || !proto.Equal(st, out) || len(st.CertificateBundles) != 2 {
+				fc.v("durable", "success-not-persisted/node-handle-response", "HandleFetchNodeCredentialsResponse succeeded but the stored credentials are absent, differ or lack certificates: %v", lerr)
+			}
+		}
+	}},
 	{"node-handle-response", func(fc *flowCtx) {
 		fc.target = fc.node
 		creds, err := types.NewNodeCredentials(fc.node.Ctx, fc.node.Storage, fc.node.Opts()...)
@@ -307,6 +392,7 @@ func wireFlow(fc *flowCtx, faultNode bool, token bool) {
 	if faultNode {
 		fc.target = fc.node
 	}
+	fc.noRetry = true
 	w := NewWire(r, fc.srv, nil, fc.srv.Opts())
 	w.StartAcceptor(fmt.Sprintf("acceptor%d", r.NextID()))
 	w.Quiesce()
@@ -446,6 +532,9 @@ func runFaultCase(r *kernel.Run, fl faultFlow, backend string, sw bool, faults m
 	start := fc.target.St.NextSeq()
 	for p, k := range faults {
 		fc.target.St.ArmAt(p, k)
+		if k == simstore.FaultNotFound {
+			fc.lied = true
+		}
 	}
 	var err error
 	if p, msg, site := kernel.Guard(func() { err = fc.call() }); p {
@@ -456,6 +545,15 @@ func runFaultCase(r *kernel.Run, fl faultFlow, backend string, sw bool, faults m
 	srv.NewCtx()
 	node.NewCtx()
 	fc.verify(err)
+	if err != nil && !fc.noRetry && len(faults) > 0 {
+		// the honest caller retries the same call once the fault is gone: the same oracle applies to the retry
+		var err2 error
+		if p, msg, site := kernel.Guard(func() { err2 = fc.call() }); p {
+			r.Violate("no-panic", "panic-on-retry/"+fl.name, "%s panicked on the retry after storage faults %v: %s (%s)", fl.name, faults, msg, site)
+		}
+		r.Count("ops.retry_after_fault", 1)
+		fc.verify(err2)
+	}
 	otherAfter := simstore.Snapshot(contextBG, srv.Inner, (*types.NodeInformation)(nil))[fc.by.id.KeyId]
 	if !bytes.Equal(otherBefore, otherAfter) {
 		r.Violate("others-untouched", "other-node-record-changed/"+fl.name, "another node's record changed during %s under faults %v", fl.name, faults)
